@@ -7,7 +7,7 @@ sys.path.insert(0, os.path.join(HERE, "..", "lib"))
 os.environ["WACVERIF_NO_INLINE"] = "1"
 import engine, facts
 db = facts.DB(engine.ensure_facts())
-ids = sorted(f.id for f in db.fns.values() if f.kind in ("Fn", "AssocFn") and "{closure" not in f.id)
+ids = {f.id: facts.DB.fingerprint(f) for f in sorted(db.fns.values(), key=lambda x: x.id) if f.kind in ("Fn", "AssocFn") and "{closure" not in f.id}
 import subprocess
 head = subprocess.run(["git", "-C", "/repo", "rev-parse", "--short", "HEAD"], capture_output=True, text=True).stdout.strip()
 json.dump({"_doc": "function ids of the reviewed tree; functions not listed here are new helpers and are analysed inlined into their callers",
